@@ -5,6 +5,8 @@ import ast
 
 import sympy as sp
 
+from ptstat.world import mass_sym
+
 from ptstat import AnalysisError, algebra
 from ptstat.taint import tainted_names, reductions_over
 from spec import neutron as spec
@@ -35,7 +37,7 @@ def run(ctx):
     comp = {Fe: q[0], O: q[1], H: q[2]}
     site = fsite(ctx, "nsf.neutron_scattering")
     cs = fsite(ctx, "nsf._calculate_scattering")
-    M = q[0] * sp.Symbol("m_Fe", positive=True) + q[1] * sp.Symbol("m_O", positive=True) + q[2] * sp.Symbol("m_H", positive=True)
+    M = q[0] * mass_sym("Fe") + q[1] * mass_sym("O") + q[2] * mass_sym("H")
     nz = [rho * M]
     got = spec.unpack(I.call(ns, [dict(comp)], {"density": rho, "wavelength": lam}))
     main = {k: algebra.main_arm(got[k], nz) for k in spec.OUTPUTS}
@@ -68,7 +70,7 @@ def run(ctx):
     flat = [(q[2], H), (n * q[1] + q[1], O), (n * q[0], Fe)]
     g1 = spec.unpack(I.call(ns, [grouped], {"density": rho, "wavelength": lam}))
     g2 = spec.unpack(I.call(ns, [flat], {"density": rho, "wavelength": lam}))
-    Mg = n * q[0] * sp.Symbol("m_Fe", positive=True) + (n + 1) * q[1] * sp.Symbol("m_O", positive=True) + q[2] * sp.Symbol("m_H", positive=True)
+    Mg = n * q[0] * mass_sym("Fe") + (n + 1) * q[1] * mass_sym("O") + q[2] * mass_sym("H")
     for k in spec.OUTPUTS:
         eq(ctx, "R2", f"{k}: grouped/reordered formula = flat formula with the same atoms", g1[k], g2[k], site,
            nonzero=[rho * Mg])
